@@ -21,8 +21,10 @@ META = {
     "level_note": "Trusted: Coq kernel, pygen, extraction+driver, the fault-injecting MemStream (a failing call closes the stream and raises EOFError, as SocketStream does; the peer then "
                   "reads end-of-stream). Threads racing on one side's close() and __del__ timing are outside; 'nobody hanging' is observed under a virtual clock (every wait is bounded).",
     "technique": "Coq proof by induction over histories of entry points with universally quantified fault outcomes; generated guarded-shape facts; exhaustive single-fault enumeration on the real code",
-    "gen": ["lifecycle"],
-    "shapes": ["lifecycle.*", "protocol.Connection.close", "protocol.Connection.serve", "protocol.Connection._handle_close", "stream.SocketStream.read", "stream.SocketStream.write"],
+    "gen": ["lifecycle", "stream", "protocol"],
+    "shapes": ["lifecycle.*", "protocol.Connection.close", "protocol.Connection.serve", "protocol.Connection._handle_close", "stream.*",
+               "protocol.Connection._cleanup", "protocol.Connection.serve_all", "protocol.Connection.poll", "protocol.Connection.poll_all", "protocol.Connection.sync_request",
+               "protocol.Connection._async_request", "protocol.Connection._dispatch", "protocol.Connection._dispatch_response"],
     "models": ["lifecycle"],
     "model_files": ["Lifecycle"],
     "assumptions": ["a failed transport call closes the stream and raises EOFError; the peer of a closed stream reads end-of-stream"],
